@@ -14,7 +14,8 @@
 (* Gating clauses (the property): nothing else is modified, storage is     *)
 (* disjoint, whatever ran is the canonical pipeline with every transform   *)
 (* once, and the function computed depends only on the SET of transforms   *)
-(* applied (so order, nesting depth, intermediate calls do not matter).    *)
+(* applied (so order, nesting depth, intermediate calls do not matter),     *)
+(* not counting the lossless format simulation, which changes nothing.     *)
 (* The backend list / flag bookkeeping is compared as model drift.         *)
 (***************************************************************************)
 EXTENDS Transforms, Json, IOUtils
@@ -23,6 +24,11 @@ NT == Len(Traces)
 SeqOf(js) == [i \in 1 .. Len(js) |-> js[i]]
 SemanticSet(b) == {b[i] : i \in {j \in 1 .. Len(b) : b[j] # "track"}}     \* tracking is observational
 Sem(s) == SelectSeq(s, LAMBDA k : k = "us" \/ k \in QKinds)
+\* "q1" is the LOSSLESS format pair (E8M23 both ways on float32 data): simulating it must run (it is in the pipeline) but
+\* leave the function bitwise as it was -- so {us, q1} must compute what {us} computes and {q1} what the original does.
+\* A nesting that drops or alters part of an earlier transform while adding the simulation shows up here even when both
+\* nesting orders are wrong in the same way.
+Lossless == {"q1"}
 
 \* walk: state [mods, fps (function: semantic set -> fingerprint id), drift]
 RECURSIVE Walk(_, _, _, _, _)
@@ -43,7 +49,7 @@ Walk(tr, k, mods, fps, drift) ==
     LET r == CallOn(mods, st.m)
         ran == SeqOf(st.ran)
         own == mods[st.m].backends
-        key == SemanticSet(own)
+        key == SemanticSet(own) \ Lossless
         d2 == IF drift # "" THEN drift ELSE IF ran # Sem(r.ran) THEN "pipeline_ran_at_call_step_" \o ToString(k) ELSE ""
     IN IF ran # <<>> /\ ran # Sem(own) THEN <<k, "wrong_pipeline_ran", d2>>         \* every transform once, unit scaling before quantisation
        ELSE IF key \in DOMAIN fps /\ fps[key] # st.fp THEN <<k, "function_depends_on_history_not_on_transform_set", d2>>
